@@ -21,6 +21,19 @@ import (
 // through the `inv` request of the Lean model of Invoker/_acquire/_release (the request carries
 // no globals: the model builds them itself, host function 0 = call, 1 = calln, 2 = gopanic).
 
+// invokeScribble passes the arguments in a buffer of its own and overwrites the buffer after the
+// call returned, as a Go caller that re-uses an argument slice does: what the callee keeps (a
+// variadic parameter's array, captured arguments) must not be that buffer.
+func invokeScribble(inv *ugo.Invoker, args []ugo.Object) (ugo.Object, error) {
+	buf := make([]ugo.Object, len(args))
+	copy(buf, args)
+	r, err := inv.Invoke(buf...)
+	for i := range buf {
+		buf[i] = ugo.String("<caller re-used its argument buffer>")
+	}
+	return r, err
+}
+
 func invHost(mode string) (call, calln *ugo.Function) {
 	pooled := strings.HasSuffix(mode, "pooled") && !strings.HasSuffix(mode, "unpooled")
 	reuse := strings.HasPrefix(mode, "reuse")
@@ -37,7 +50,7 @@ func invHost(mode string) (call, calln *ugo.Function) {
 			inv.Acquire()
 			defer inv.Release()
 		}
-		return inv.Invoke(args...)
+		return invokeScribble(inv, args)
 	}
 	call = &ugo.Function{Name: "call", ValueEx: func(c ugo.Call) (ugo.Object, error) {
 		if c.Len() < 1 {
@@ -60,7 +73,7 @@ func invHost(mode string) (call, calln *ugo.Function) {
 				defer inv.Release()
 			}
 			for i := 0; i < n; i++ {
-				r, err := inv.Invoke(args...)
+				r, err := invokeScribble(inv, args)
 				if err != nil {
 					return ugo.Undefined, err
 				}
@@ -182,6 +195,7 @@ func init() {
 		Name: "invoke",
 		Skip: vmSkip,
 		Run: func(c *Ctx) {
+			stringsFuncOracle(c)
 			c.Rule("generated scripts (gen/invoke.go: fixed/variadic functions, closures over a counter, global updaters, recursion, nested invocation, throwing and failing functions, functions importing modules, try/finally bodies, closures made in loops; accepted arities only) run twice: in-script calls vs Go-side ugo.Invoker calls (unpooled, pooled, one Invoker reused) x optimizer on/off; oracle: equal result/error, globals, captured state; lock-step of both variants with the Lean model (`vm` / `inv` requests); distinct = distinct (mode, shape, outcome class)")
 			n := 250 * c.Scale
 			for i := 0; i < 5; i++ {
